@@ -97,7 +97,10 @@ class EccChecker(KnownChecker):
     def _verify(cls, pub_key_bits, sig_ptrs) -> bool:
         if sig_ptrs.signature_info.signature_type != SignatureType.SHA256_WITH_ECDSA:
             return False
-        pub_key = ECC.import_key(bytes(pub_key_bits))
+        try:
+            pub_key = ECC.import_key(bytes(pub_key_bits))
+        except ValueError:
+            return False
         return verify_ecdsa(pub_key, sig_ptrs)
 
 
@@ -106,7 +109,10 @@ class RsaChecker(KnownChecker):
     def _verify(cls, pub_key_bits, sig_ptrs) -> bool:
         if sig_ptrs.signature_info.signature_type != SignatureType.SHA256_WITH_RSA:
             return False
-        pub_key = RSA.import_key(bytes(pub_key_bits))
+        try:
+            pub_key = RSA.import_key(bytes(pub_key_bits))
+        except ValueError:
+            return False
         return verify_rsa(pub_key, sig_ptrs)
 
 
@@ -134,7 +140,10 @@ class Ed25519Checker(KnownChecker):
     def _verify(cls, pub_key_bits, sig_ptrs) -> bool:
         if sig_ptrs.signature_info.signature_type != SignatureType.ED25519:
             return False
-        pub_key = ECC.import_key(pub_key_bits)
+        try:
+            pub_key = ECC.import_key(pub_key_bits)
+        except ValueError:
+            return False
         if not isinstance(pub_key, ECC.EccKey):
             return False
         return verify_ed25519(pub_key, sig_ptrs)
